@@ -38,6 +38,17 @@ func constComparisons(f *ssa.Function) map[string]bool {
 	out := map[string]bool{}
 	for _, b := range f.Blocks {
 		for _, in := range b.Instrs {
+			// membership in a constant table counts as a comparison with each of its entries
+			if c, isCall := in.(*ssa.Call); isCall {
+				if pp := programOf(f); pp != nil {
+					if names, _, subj, isT := tableMembershipTest(pp, c); isT && subj != nil {
+						for _, nm := range names {
+							out[nm] = true
+						}
+					}
+				}
+				continue
+			}
 			bo, ok := in.(*ssa.BinOp)
 			if !ok || bo.Op != token.EQL {
 				continue
